@@ -314,4 +314,21 @@ def read_back(path, tree, limit=None):
             want = tree[rel][pos: pos + n]
             if len(want) != n or arr.flatten(order="F").tobytes() != want:
                 bad.append(f"level {lv} box {b}: values differ from the FAB whose header names {lo}..{hi}")
+                continue
+            # the same box through a single-field selector (index or name, rotating over the fields) and a list selector
+            k = (lv + b) % nf
+            fsel = k if (lv + b) % 2 == 0 else list(pck.fields)[k]
+            for sel, wshape, wdata in ((fsel, shape, arr[..., k]), ([k], shape + [1], arr[..., [k]])):
+                try:
+                    with quiet():
+                        one = np.asarray(pck[sel][lv][b])
+                except Exception as e:
+                    bad.append(f"level {lv} box {b}: read of field selection {sel!r} raised {type(e).__name__}: {e}")
+                    break
+                if list(one.shape) != wshape:
+                    bad.append(f"level {lv} box {b}: field selection {sel!r} has shape {list(one.shape)} != declared {wshape}")
+                    break
+                if one.tobytes() != np.ascontiguousarray(wdata).tobytes():
+                    bad.append(f"level {lv} box {b}: field selection {sel!r} holds other values than the FAB")
+                    break
     return bad
